@@ -1184,7 +1184,9 @@ func (env *Environment) setState(state string) {
 func (env *Environment) subscribeToWfState(taskman *task.Manager) {
 	go func() {
 		wf := env.Workflow()
-		notify := make(chan sm.State)
+		// The adapter notifies with a non-blocking send: one slot of buffer turns a notification that arrives
+		// while this goroutine is busy into a pending wake-up instead of dropping it.
+		notify := make(chan sm.State, 1)
 		subscriptionId := uuid.NewUUID().String()
 		env.wfAdapter.SubscribeToStateChange(subscriptionId, notify)
 		defer env.wfAdapter.UnsubscribeFromStateChange(subscriptionId)
@@ -1197,6 +1199,13 @@ func (env *Environment) subscribeToWfState(taskman *task.Manager) {
 			for {
 				select {
 				case wfState = <-notify:
+					// a notification may stand for later ones that found the slot taken: also look at
+					// the current state
+					if wfState != sm.ERROR {
+						if current := wf.GetState(); current == sm.ERROR {
+							wfState = current
+						}
+					}
 					if wfState == sm.ERROR {
 						if !handlingError {
 							handlingError = true
